@@ -734,6 +734,17 @@ class CallsMixin(ExecBase):
 
     def container_method(self, ref: Ref, name, args, kwargs, st, node):
         c = st.cell(ref)
+        sa = self.opts.get("site_asserts", {}).get(ast.unparse(node.func)) if isinstance(node, ast.Call) else None
+        if sa is not None and self.depth == 0:
+            from .contracts import Clause
+            cl = sa if isinstance(sa, Clause) else Clause("site_" + ast.unparse(node.func).replace(".", "_"), sa, "ensures")
+            bound = dict(st.vars)
+            bound["arg0"] = args[0] if args else VNone
+            goal = self.eval_clause(cl, bound, st, self.entry_pre, {})
+            k_ = sum(1 for o in self.obligations if "::site:" in o.id and ast.unparse(node.func) in o.id)
+            g_ = self.guard_cond()
+            self.obligations.append(Obligation(f"{getattr(self, 'fn_site', self.fn_qual)}::site:{ast.unparse(node.func)}#{k_}", "assert",
+                                               list(st.pc) + ([g_] if g_ is not None else []), goal, {"line": getattr(node, "lineno", 0), "clause": cl.name}))
         if name in MUTATORS:
             if c.frozen:
                 self.oos(f"mutation ({name}) of a container that was stored by value elsewhere (aliasing)", node)
